@@ -469,7 +469,13 @@ def c13_runs(tier, seed):
 reg(Spec(
     "C13", "support windows form the expected interval algebra over the grid",
     c13_runs,
-    rule=("exhaustive small scope: every grid size n = 2..N (N = 9 quick, 12 "
+    rule=("For every window a long-lived support is compared with the same "
+          "window on a separate-but-equal grid instance (true, then the "
+          "instance is destroyed) and on a logically different grid of the "
+          "same size allocated right afterwards (address reuse is counted): "
+          "equality, hasSameGrid, union and intersection must follow the "
+          "points, not the history. "
+          "Exhaustive small scope: every grid size n = 2..N (N = 9 quick, 12 "
           "thorough), every window of the grid (the empty window plus all "
           "(start,end) pairs: 29 at n = 7, 79 at n = 12), every ordered pair "
           "(second operand on the same grid object and on an equal twin) and "
@@ -493,7 +499,7 @@ reg(Spec(
           "and keep describing the window across const operations with "
           "supports on an equal twin grid; assignment between interval-free "
           "supports on different grids moves the grid along."),
-    required=["pairs", "triples", "index-probes", "index-probes:near-SIZE_MAX",
+    required=["long-lived-support:checked", "pairs", "triples", "index-probes", "index-probes:near-SIZE_MAX",
               "gridsize:2", "gridsize:7", "large-grid:300", "large-grid:70000",
               "reference-stability", "empty-assignment-across-grids"],
     assumptions=["scope bound N on the grid size; grid point values are "
